@@ -315,6 +315,17 @@ def _norm(x):
     return str(x) if not isinstance(x, (int, bool)) else x
 
 
+def _unhash(x):
+    """tlaval makes set elements hashable (records -> sorted tuples of pairs): turn them back into dicts."""
+    if isinstance(x, tuple) and x and all(isinstance(i, tuple) and len(i) == 2 and isinstance(i[0], str) for i in x):
+        return {k: _unhash(v) for k, v in x}
+    if isinstance(x, dict):
+        return {k: _unhash(v) for k, v in x.items()}
+    if isinstance(x, (tuple, list)):
+        return [_unhash(v) for v in x]
+    return x
+
+
 def _no_times(bs):
     out = {"running": bs["running"], "steps": {}}
     for s, ws in bs["steps"].items():
@@ -398,6 +409,16 @@ def replay_model(chk, name, prog, ext_menu=(), max_ext=1, max_cancel=0, max_path
                 a = _norm(_no_times(tlaval.to_py(stt["bs"])))
                 b = _norm(_no_times(en.p_state(runner.state)))
                 real_outcome = (s.outcome or {"kind": "none"})["kind"]
+                # runner level: the timer heap (kind of tick, time left) of the model vs the real runner
+                if stt["outcome"] == "none" and real_outcome == "none":
+                    mw = sorted((_unhash(w)["tick"]["k"], _unhash(w)["at"] - stt["now"]) for w in stt["wake"])
+                    now_real = getattr(s, "last_now", None)
+                    rw = sorted((en.p_tick(tk)["k"], en.ms(at - now_real)) for (at, _q, tk) in runner.scheduled_wakeups) \
+                        if now_real is not None else mw
+                    # the real clock value is the one of the last get_now(); compare with a tolerance of the elapsed virtual time
+                    if [k for k, _ in mw] != [k for k, _ in rw]:
+                        a = {"state": a, "wake": mw}
+                        b = {"state": b, "wake": rw}
                 if a != b or (stt["outcome"] not in (real_outcome, "error")):
                     mism += 1
                     if first_mismatch is None:
